@@ -1479,10 +1479,14 @@ func runC15(c *Ctx) {
 			continue
 		}
 		f := strings.Fields(reps[i])
-		if len(f) != 6 {
+		if len(f) != 7 {
 			r.violate(Violation{Kind: "correspondence", Key: "C15:driver-parse", What: "driver could not parse the encoded AST: " + reps[i],
 				Input: input, Broken: "correspondence C15.equiv (encoding)"})
 			continue
+		}
+		if f[6] != "true" {
+			r.violate(Violation{Kind: "correspondence", Key: "C15:fuel-inadequate", What: "the unfolding of a real compiled AST is cut off at Prog.fuel (semCallO = none)",
+				Input: input, Model: reps[i], Broken: "hypothesis of Props.C15.sem_fuel_stable"})
 		}
 		if f[2] != "true" || f[3] != "true" {
 			r.violate(Violation{Kind: "correspondence", Key: "C15:wf", What: "a real compiled AST does not satisfy the model's well-formedness hypothesis",
